@@ -30,9 +30,9 @@ static scpi_error_t eq[MAXCAP];
 static char * heap;
 static int hsize = 4, cap = 1;
 
-static char outb[1024];
+static char outb[2048];
 static size_t outn;
-static char curdesc[4096];  /* printed when a sanitizer stops the run */
+static char curdesc[65536];  /* printed when a sanitizer stops the run */
 
 static int on_error(scpi_t * c, int_fast16_t e) { (void) c; (void) e; return 0; }
 static size_t on_write(scpi_t * c, const char * d, size_t l) {
@@ -176,7 +176,7 @@ static void record(FILE * f, const char * from, const op_t * o, long loc) {
 }
 
 static char * state_str(void) {
-    static char buf[2048];
+    static char buf[32768];
     FILE * m = fmemopen(buf, sizeof buf, "w");
     print_state(m);
     fclose(m);
@@ -314,7 +314,7 @@ static int walk(unsigned long seedv, long steps, const char * outpath, long dump
     fresh();
     for (i = 0; i < steps; i++) {
         op_t o;
-        char from[2048];
+        static char from[32768];
         unsigned r = rnd() % 100;
         int qn = ctx.error_queue.count;
         memset(&o, 0, sizeof o);
@@ -333,6 +333,10 @@ static int walk(unsigned long seedv, long steps, const char * outpath, long dump
         } else if (r < 82) o.kind = 1;
         else if (r < 94) o.kind = 3;
         else o.kind = 2;
+        /* heaps that hold texts of more than 255 characters: the automatic length stops there (explicit lengths do not),
+           and SYST:ERR? cuts its response (C18), so entries are taken out with SCPI_ErrorPop */
+        if (o.kind == 0 && o.mode == 0 && o.len > 255) o.mode = 1;
+        if (o.kind == 1 && hsize > 255) o.kind = 3;
         if (since < 4096) log[since] = o;
         since++;
         if (dumpstep >= 0 && i == dumpstep) {
@@ -358,7 +362,7 @@ static int path(const char * opsfile, const char * outpath) {
     fresh();
     while (fgets(line, sizeof line, in)) {
         op_t o;
-        char a[16] = "", from[2048];
+        char a[16] = "", from[32768];
         int k;
         memset(&o, 0, sizeof o);
         k = sscanf(line, "%15s %d %d %d %d", a, &o.code, &o.shape, &o.len, &o.mode);
